@@ -548,3 +548,46 @@ def hilbert_owner(tree, bound_key):
                 cpu = i
         owner[(lev, p)] = cpu if cpu is not None else len(bound_key) - 2
     return owner
+
+
+# --------------------------------------------------------------- particle / sink builders
+
+STD_PART = [("mass", "d"), ("identity", "i"), ("levelp", "i"), ("family", "b"), ("tag", "b")]
+
+
+def part_descriptor(ndim, extra=STD_PART, with_pos=True, with_vel=True):
+    d = []
+    if with_pos:
+        d += [(f"position_{c}", "d") for c in "xyz"[:ndim]]
+    if with_vel:
+        d += [(f"velocity_{c}", "d") for c in "xyz"[:ndim]]
+    return d + list(extra)
+
+
+def part_value(j, typ, cpu, i):
+    """distinct, exactly representable tag for column j, particle i of cpu (0-based)"""
+    if typ == "d":
+        return 0.25 + i + 16.0 * cpu + 256.0 * (j + 1)
+    if typ == "i":
+        return 1 + i + 100 * cpu + 10000 * (j + 1)
+    return (i * 7 + cpu * 3 + j) % 100 - 50  # byte
+
+
+def make_part(desc, counts, localseed=4, nstar_bytes=4):
+    """counts: list of particle counts per cpu"""
+    data = {}
+    for k, n in enumerate(counts):
+        data[k] = {name: [part_value(j, typ, k, i) for i in range(n)] for j, (name, typ) in enumerate(desc)}
+    return {"desc": list(desc), "data": data, "localseed": localseed, "nstar_bytes": nstar_bytes, "counts": list(counts)}
+
+
+def make_sink(ndim, nrows, legacy=False, extra_cols=()):
+    keys = ["id", "msink"] + list("xyz"[:ndim]) + ["v" + c for c in "xyz"[:ndim]] + ["level"] + list(extra_cols)
+    if legacy:
+        units = ["[1]", "[g]"] + ["[cm]"] * ndim + ["[cm/s]"] * ndim + ["[1]"] + ["[s]"] * len(extra_cols)
+    else:
+        units = ["1", "m"] + ["l"] * ndim + ["l t**-1"] * ndim + ["1"] + ["m l**2 t**-1"] * len(extra_cols)
+    rows = [[(r + 1) + 0.5 * j for j in range(len(keys))] for r in range(nrows)]
+    for r in range(nrows):
+        rows[r][0] = float(r + 1)
+    return {"keys": keys, "units": units, "rows": rows, "legacy": legacy}
